@@ -61,6 +61,17 @@ def check(cfg, name):
         want_tl = [LabelConverter(task, merge, prefix).convert_label(n).label for n in names]
         if len(tl) != len(want_tl) or any(a is not b for a, b in zip(tl, want_tl)):
             return f"set_target_lists({names!r}) gives {tl!r}, objects with these names are labelled {want_tl!r}"
+    if prefix == "traffic_light":
+        # one label family, two task groups: a light state the classification tasks know by name is a traffic light (documented label) for every other task
+        from perception_eval.common.evaluation_task import EvaluationTask
+        cls_conv = LabelConverter(EvaluationTask.CLASSIFICATION2D, False, prefix)
+        det_conv = LabelConverter(EvaluationTask.DETECTION2D, False, prefix)
+        LT = cls_conv.label_type
+        if any(li.name == name.lower() for li in cls_conv.label_infos):
+            c_lab, d_lab = cls_conv.convert_label(name).label, det_conv.convert_label(name).label
+            want_d = c_lab if c_lab in (LT.UNKNOWN, LT.FP) else LT.TRAFFIC_LIGHT
+            if d_lab is not want_d:
+                return f"{name!r} is the registered light state {c_lab!r} of the family, but for the detection tasks it converts to {d_lab!r} instead of {want_d!r}"
     if merge:
         plain = LabelConverter(task, False, prefix).convert_label(name).label
         want = conv.label_type(MERGE.get(plain.value, plain.value))
@@ -81,6 +92,9 @@ def search(item, seed):
         conv = LabelConverter(t, m, p)
         cands = [s for _, s in model_strings(item.get("model"))]
         cands += [li.name for li in conv.label_infos] + [L.value for L in conv.label_type] + [li.name.upper() for li in conv.label_infos]
+        if p == "traffic_light":
+            from perception_eval.common.evaluation_task import EvaluationTask
+            cands += [li.name for li in LabelConverter(EvaluationTask.CLASSIFICATION2D, False, p).label_infos]
         cands += ["", "bogus"] + ["".join(rnd.choice("abc._ XY") for _ in range(rnd.randint(1, 9))) for _ in range(40)]
         for s in cands:
             why = check(cfg, s)
